@@ -17,6 +17,7 @@
   on names and parameters (the injection statements) carry none on the value.
 -/
 import ICal.Lemmas.Line
+import ICal.Lemmas.BodiesLine
 namespace ICal.C05
 
 /-- `escape_string` leaves a text alone in which no backslash is followed by `,` `:` `;` `\`. -/
@@ -198,5 +199,60 @@ example : readBack hostileParams =
 example : parts "X;K=\"a\\;L=1:b%3A\";M=\"x\\\",\";Y=2:\":v".toList =
     some (['X'], [(['K'], .one "a;L=1:b:".toList), (['M'], .many ["x\\".toList, ";Y=2:".toList])], ['v']) := by
   decide
+
+/-! ## Regenerated function bodies = hand model
+
+  `ICal.Gen.BodiesLine.*` are written by tools/py2lean.py from the current source text on every run:
+  the `.replace` chains `escape_string` / `unescape_string`, `Contentline.raw_value` (the `while`
+  loop with its index, `continue` and `return`, as a recursion on fuel `len + 1`) and the scanning
+  loop of `Contentline.parts` (a FRAGMENT: the `for i, ch in enumerate(st)` loop and the
+  initialisation of `name_split`, `value_split`, `in_quotes`) - and the whole of `parts()` with its
+  calls of `Parameters.from_ical`, `validate_token`, `Parameters(...)` as parameters (`body_parts`).  The theorems
+  prove them equal to `escapeString`, `unescapeString`, `rawValue` and `scanParts`, which every
+  theorem above is about; in particular WHICH string the indices are taken from and applied to is
+  part of the translated code (a loop over `escape_string(self)` whose index is used on `self`
+  does not have these meanings).  `raw_value` never runs out of fuel and never raises.
+  `i` after the loop of `parts()` is the last index: the source reads `i + 1` (the length of the
+  escaped line) only behind the test for an empty name, so the unbound case (`none`, empty line)
+  is never read; the model writes `st.length` there. -/
+
+theorem body_escape_string (s : Str) : Gen.BodiesLine.escape_string s = escapeString s :=
+  Bodies.escape_string_eq s
+
+theorem body_unescape_string (s : Str) : Gen.BodiesLine.unescape_string s = unescapeString s :=
+  Bodies.unescape_string_eq s
+
+theorem body_raw_value (line : Str) : Gen.BodiesLine.raw_value line = .ok (rawValue line) :=
+  Bodies.raw_value_eq line
+
+theorem body_parts_scan (st : Str) :
+    Gen.BodiesLine.parts_scan st =
+      (Bodies.optInt (scanParts st 0 false none none).1, Bodies.optInt (scanParts st 0 false none none).2,
+        if st = [] then none else some (((st.length - 1 : Nat)) : Int)) :=
+  Bodies.parts_scan_eq st
+
+/-- The WHOLE of `Contentline.parts`, regenerated: `escape_string(self)`, the scanning loop, the name, the two
+    checks, `value_split = i + 1`, the three slices of the ESCAPED line, `unescape_string`, the `try .. except
+    ValueError`.  Its external calls are parameters (`validate_token`, `Parameters.from_ical(.., strict=self.strict)`,
+    and the re-keying expression `Parameters((unescape_string(key), unescape_list_or_string(value)) for ..)`);
+    given the hand model's `validToken`, `paramsFromIcal` and re-keying fold it IS the model `parts`. -/
+theorem body_parts (line : Str) (strict : Bool) :
+    Gen.BodiesLine.parts line Bodies.validateTokenP strict Bodies.paramsFromIcalP Bodies.paramsUnescapeP =
+      (match parts line strict with
+       | some r => .ok r
+       | none => .error .valueError) :=
+  Bodies.parts_eq line strict
+
+/-- `value_split = i + 1` of the source is the model's `st.length` whenever it is read -/
+theorem body_parts_scan_last (st : Str) (h : st ≠ []) :
+    (Gen.BodiesLine.parts_scan st).2.2 = some ((st.length : Int) - 1) := by
+  rw [body_parts_scan]
+  have : 0 < st.length := List.length_pos_iff.mpr h
+  simp only [h, if_false]
+  congr 1; omega
+
+example : (Gen.BodiesLine.raw_value "A;X=\":\":a\\:b:c".toList).toOption = some "a\\:b:c".toList := by decide
+example : Gen.BodiesLine.parts_scan "A;X=\":\":v".toList = (some 1, some 7, some 8) := by decide
+example : Gen.BodiesLine.parts_scan [] = (none, none, none) := by decide
 
 end ICal.C05
